@@ -111,6 +111,11 @@ Definition dispatch_coder (fn : Z) (args : list (list Z)) : option (list (list Z
       Some (out_result (fun r => let '(cands, (det, flag, count, visited)) := r in
                                  [enc_groups cands; [det; b2z flag; count; visited]])
               (repair_dna s (chunk4 acc) (a1 v0) (a1 k) (opt_string vt) (boolarg indel) (a1 heap)))
+  | 49, [bits; acc; v; faster; sh; fuel] =>   (* composite: encode then decode with the same arguments *)
+      Some (out_result (fun r => [fst r; snd r])
+              (e <- encode bits (chunk4 acc) (a1 v) (boolarg faster) 0 (opt_table sh) (natarg fuel) ;;
+               d <- decode (fst e) (Z.of_nat (length bits)) (chunk4 acc) (a1 v) (boolarg faster) None (opt_table sh) ;;
+               Ok (fst e, d)))
   | _, _ => None
   end.
 
@@ -145,6 +150,16 @@ Definition dispatch_graph (fn : Z) (args : list (list Z)) : option (list (list Z
   | 45, [acc; m; ins; del] =>
       Some (out_result (fun r => let '(acc', m', (f, l), sc) := r in [concat acc'; enc_lmap m'; [f; l]; sc])
               (remove_nasty_arc (chunk4 acc) (dec_lmap (length m) m) (boolarg ins) (boolarg del)))
+  | 46, [acc; k] =>        (* composite: latter map and the round trip through it *)
+      let m := accessor_to_latter_map (chunk4 acc) in
+      Some (out_result (fun a => [enc_lmap m; concat a]) (latter_map_to_accessor m (natarg k) None))
+  | 47, [acc; v; depth] => (* composite: leaf query from both representations *)
+      let a := chunk4 acc in
+      Some (out_result (fun l => [l; leaves_map (natarg depth) (accessor_to_latter_map a) [a1 v]])
+              (leaves_acc (natarg depth) a [a1 v]))
+  | 48, [acc] =>           (* composite: matrix and the round trip through it (maximum_length = 8) *)
+      Some (out_result (fun r => [concat (fst r); concat (snd r)])
+              (m <- accessor_to_adjacency_matrix (chunk4 acc) 8 ;; b <- adjacency_matrix_to_accessor m ;; Ok (m, b)))
   | _, _ => None
   end.
 
